@@ -387,19 +387,27 @@ def linesPost (h : HashFn) (st : St) (dict : Nat) (ln : Nat) (linesDir : Nat) : 
           if !tail.isEmpty then (st, .ok)
           else
             let t := String.ofList tyc
-            let r : Option (Ty × Nat) :=
-              if t == "SYMBOL" then (parseNum 16 (tokStr n.val)).map (fun v => (Ty.addr, v))
-              else if t == "LENGTH" || t == "NUMBER" || t == "OFFSET" || t == "SIZE" then
-                (parseNum 0 (tokStr n.val)).map (fun v => (Ty.num, v))
+            let tyOf : Option Ty :=
+              if t == "SYMBOL" then some Ty.addr
+              else if t == "LENGTH" || t == "NUMBER" || t == "OFFSET" || t == "SIZE" then some Ty.num
               else none
-            match r with
+            match tyOf with
             | none => (st, .ok)
-            | some (ty, v) =>
-              match createPath h st dict vdir (t ++ "." ++ String.ofList symc) ty .none with
-              | .done st' a =>
-                if (st'.get a).map (·.ty) != some ty then (st', .invalid)
-                else (setPlain st' a false ((if ty == .num then "num:" else "addr:") ++ toString v), .ok)
-              | _ => (st, .system)
+            | some ty =>
+              let tkey := t ++ "." ++ String.ofList symc
+              match parseNum (if ty == .addr then 16 else 0) (tokStr n.val) with
+              | none =>
+                -- the value is not a number: the row is ignored, but a typed value derived from an earlier row
+                -- with the same key is stale and cleared (fix 13f1add)
+                match lookupDir h st dict vdir tkey with
+                | some a => if (st.get a).map (·.ty) == some ty then (clearAttr st a, .ok) else (st, .ok)
+                | none => (st, .ok)
+              | some v =>
+                match createPath h st dict vdir tkey ty .none with
+                | .done st' a =>
+                  if (st'.get a).map (·.ty) != some ty then (st', .invalid)
+                  else (setPlain st' a false ((if ty == .num then "num:" else "addr:") ++ toString v), .ok)
+                | _ => (st, .system)
   | _, _ => (st, .ok)
 
 /-- Rows of a VMCOREINFO blob: (key, value). -/
